@@ -26,7 +26,11 @@
    host container only when the collection has more than BigAbove members.
    With Site = AllRawBig (Order_bigraw.cfg) collections of <= BigAbove members
    show nothing (SmallBlind) and the larger ones show their internal order in
-   the same programs as with AllRaw. *)
+   the same programs as with AllRaw.
+
+   Round 5: TwinStep (OrderOps!Twin): the collection meets an equal one built
+   elsewhere inside one outer set; OneMember: they are one member there.
+   Sites names.*: the symbols of a module, an import list, ls(), an object. *)
 EXTENDS OrderOps, Json, IOUtils
 
 CONSTANTS N,        \* a collection holds at most N elements
@@ -81,13 +85,20 @@ BuildStep == /\ pc \in 1..Len(Stages) /\ Stages[pc].k = "build"
              /\ pc' = pc + 1
              /\ UNCHANGED <<prog, base>>
 
-PureStep == /\ pc \in 1..Len(Stages) /\ Stages[pc].k \notin {"enum", "build"}
+(* round 5: an equal collection is built somewhere else - its internal order is arbitrary, too - and both are put
+   into one outer set (used as keys of one map) *)
+TwinStep == /\ pc \in 1..Len(Stages) /\ Stages[pc].k = "twin" /\ cur.t = "coll"
+            /\ \E p \in Perms(cur.elems) : cur' = Apply(Stages[pc], cur, Site, p)
+            /\ pc' = pc + 1
+            /\ UNCHANGED <<prog, base>>
+
+PureStep == /\ pc \in 1..Len(Stages) /\ Stages[pc].k \notin {"enum", "build", "twin"}
             /\ cur' = Apply(Stages[pc], cur, Site, << >>)
             /\ pc' = pc + 1
             /\ UNCHANGED <<prog, base>>
 
 Next == \/ \E e \in Elems : Add(e)
-        \/ Reorder \/ Start \/ EnumStep \/ BuildStep \/ PureStep
+        \/ Reorder \/ Start \/ EnumStep \/ BuildStep \/ TwinStep \/ PureStep
 
 Spec == Init /\ [][Next]_vars
 
@@ -138,6 +149,10 @@ SortedIsEnumeration ==
 
 (* the property *)
 OrderIndependence == Done => cur.seq = RefEval(Stages, base.elems)
+
+(* round 5: equal collections are ONE member of a set / ONE key of a map, whatever their internal orders (a
+   consequence of OrderIndependence, stated on its own: the reference value of a Twin stage is 1) *)
+OneMember == (Done /\ Stages[Len(Stages)].k = "twin") => cur.seq = <<1>>
 
 (* round 4: a site that switches to the raw walk only above a size threshold shows nothing on collections up to
    that size - with Site = AllRawBig (Order_bigraw.cfg) this holds and ReportVary lists what the big ones show;
